@@ -463,6 +463,43 @@ def decoded_field(x):
     return None
 
 
+def _offset_terms(x) -> list:
+    """the symbolic terms the offset of a decoded integer is computed from"""
+    from .c06 import CallV, LinV, SliceV, SubV
+    off = None
+    if isinstance(x, SubV) and isinstance(x.base, CallV) and x.base.fn in ("unpack", "unpack_from"):
+        c = x.base
+        if c.fn == "unpack" and len(c.args) == 2 and isinstance(c.args[1], SliceV):
+            off = c.args[1].lo
+        elif c.fn == "unpack_from" and len(c.args) >= 2:
+            off = c.args[2] if len(c.args) > 2 else dict(c.kw).get("offset")
+    elif isinstance(x, CallV) and x.fn == "from_bytes" and x.args and isinstance(x.args[0], SliceV):
+        off = x.args[0].lo
+    if isinstance(off, LinV):
+        return list(off.terms)
+    return [off] if isinstance(off, Sym) else []
+
+
+_SEARCHES, _POSITIONS, _FINDS = {"search", "match", "finditer", "fullmatch"}, {"start", "end", "span"}, {"find", "index", "rfind", "rindex"}
+
+
+def _search_origin(t, data: str, depth: int = 0) -> bool:
+    """is the term a position found by searching the buffer `data` for a pattern (m.start() of a regex search over data, data.find(...))?"""
+    from .c06 import CallV, SubV
+    if depth > 4:
+        return False
+    if isinstance(t, SubV):
+        return _search_origin(t.base, data, depth + 1)
+    if not isinstance(t, CallV):
+        return False
+    over_data = any(isinstance(a, Sym) and a.path == data for a in t.args)
+    if t.fn in _FINDS and ((isinstance(t.recv, Sym) and t.recv.path == data) or over_data):
+        return True
+    if t.fn in _POSITIONS and isinstance(t.recv, CallV) and t.recv.fn in _SEARCHES and any(isinstance(a, Sym) and a.path == data for a in t.recv.args):
+        return True
+    return False
+
+
 def _field_ok(got, data: str, want_off: dict, size: int, order: str) -> bool:
     return isinstance(got, tuple) and isinstance(got[0], Sym) and got[0].path == data and got[1] == want_off and got[2] == size and got[3] == order
 
@@ -700,6 +737,24 @@ def _jpeg_reader(ctx: Ctx) -> None:
     reads = {p: lin_of(t.key) for p, t in dt.domain_reads.items() if isinstance(t, SubV) and lin_of(t.key) is not None}
     cursors = {k for lf in reads.values() for k in lf if k != "" and "@w" in k}
     if len(cursors) != 1:
+        # no segment walk was re-identified.  Positive evidence of a different mechanism: the dimensions are decoded at an offset that is the
+        # result of a pattern search over the WHOLE buffer (re search / bytes.find of a marker byte pair): marker bytes inside the payload of an
+        # earlier segment (an Exif thumbnail's frame header in APP1) are found first, because no segment is skipped by its length field
+        found = None
+        for v, r in rows:
+            ret = r.ret
+            if r.raised is None and isinstance(ret, (tuple, list)) and len(ret) == 2 and ret[0] is not None and ret[1] is not None:
+                for term in ret:
+                    for t in _offset_terms(term):
+                        if _search_origin(t, data):
+                            found = found or str(dt.show(t))
+        walks = any(e[0] in ("while-begin", "loop-begin") for _v, r in rows for e in r.effects)
+        if found and not walks:
+            ctx.instance("R16.3", fi.where(), f"{fi.short} over symbolic bytes: dimensions are decoded at an offset computed from `{found[:80]}` (pattern search over the whole data), no loop over the segments")
+            ctx.violation("R16.3", fi.short, "SOF parsing", fi.where(), "JPEG height/width are not read from offsets +5/+7 of an SOF0-15 marker (excluding DHT/JPG/DAC) with length-based segment skipping; "
+                          f"the frame header is located by a pattern search over the whole data (`{found[:80]}`) and no segment is skipped by its length at +2: marker bytes inside an earlier "
+                          "segment's payload (e.g. the thumbnail in an Exif APP1 segment) are taken for the frame header")
+            return
         ctx.gap("R16.3", f"{fi.short}: the scan cursor was not re-identified (single bytes are read at {sorted(reads)[:4]})")
         return
     c = cursors.pop()
